@@ -31,6 +31,7 @@ ABIDIFF_PAIRS = {'rvalueref': ('tests/data/test-diff-filter/test30-pr18904-rvalu
                  'struct-change': ('tests/data/test-diff-filter/libtest32-struct-change-v0.so', 'tests/data/test-diff-filter/libtest32-struct-change-v1.so'),
                  'ppc64-aliases': ('tests/data/test-diff-dwarf/libtest36-ppc64-aliases-v0.so', 'tests/data/test-diff-dwarf/libtest36-ppc64-aliases-v1.so'),
                  'pr18818': (RD + 'test9-pr18818-clang.so', RD + 'test10-pr18818-gcc.so'),
+                 'cxx-pool': ('@cxx_v0', '@cxx_v1'), 'cxx-pool-rev': ('@cxx_v2', '@cxx_v0'),
                  'ties': ('@ties_v0', '@ties_v1'), 'ties-rev': ('@ties_v1', '@ties_v0'), 'twice-ties': ('@twice_v0', '@ties_v0')}
 ABIDIFF_OPTS = {'default': [], 'redundant': ['--redundant'], 'leaf': ['--leaf-changes-only'], 'harmless': ['--harmless'], 'impacted': ['--impacted-interfaces', '--leaf-changes-only'],
                 'stat': ['--stat'], 'unreachable': ['--non-reachable-types'], 'unreachable-leaf': ['--non-reachable-types', '--leaf-changes-only'],
@@ -46,6 +47,7 @@ def item_list(tier):
         for n, o in (('ties', 'default'), ('ties', 'all-types'), ('twice', 'all-types'), ('ties', 'annotate')):
             items.append(('abidw', n, o))
         for n, o in (('rvalueref', 'default'), ('lttng', 'default'), ('struct-change', 'redundant'), ('ppc64-aliases', 'harmless'), ('pr18818', 'leaf'), ('rvalueref', 'impacted'),
+                     ('cxx-pool', 'impacted'), ('cxx-pool-rev', 'impacted'), ('cxx-pool', 'default'),
                      ('ties', 'unreachable'), ('ties-rev', 'unreachable-leaf'), ('ties', 'unreachable-all'), ('twice-ties', 'unreachable')):
             items.append(('abidiff', n, o))
         for i in range(6):
